@@ -317,6 +317,45 @@ def suite_swath(ctx):
         if p == base or base == p or p.update_hash().hexdigest() == bd or hash(p) == hash(base):
             ctx.fail("BaseDefinition.update_hash", "swaths differing by 1e-3 degree in one coordinate compare equal or share a digest",
                      {"shape": [H, W]}, size=H * W)
+        # lons and lats exchanged: different coordinates, so unequal and a different digest / hash / cache key
+        xa, ya = lats.copy(), (lons / 2.0)
+        if not np.array_equal(xa, ya):
+            for nm, mk in (("array", lambda v: v.copy()), ("xarray", lambda v: xr.DataArray(v.copy(), dims=("y", "x"))), ("float32", lambda v: v.astype(np.float32))):
+                s1, s2 = SwathDefinition(mk(xa), mk(ya)), SwathDefinition(mk(ya), mk(xa))
+                probs = []
+                if s1 == s2 or s2 == s1:
+                    probs.append("compare equal")
+                if s1.update_hash().hexdigest() == s2.update_hash().hexdigest():
+                    probs.append("same update_hash digest")
+                if hash(s1) == hash(s2):
+                    probs.append("same hash()")
+                if _keys(s1, other, radius=1.0) == _keys(s2, other, radius=1.0):
+                    probs.append("same resampler cache key")
+                ctx.case("swath.exchanged", (H, W, nm, float(lons[0, 0])), nontrivial=True)
+                if probs:
+                    ctx.fail("BaseDefinition.update_hash", f"two swaths with lons and lats exchanged ({nm}): " + ", ".join(probs), {"shape": [H, W], "spelling": nm},
+                             tags={"kind": "swath-exchanged"}, size=H * W)
+        # what == answers does not depend on whether hash() was called before (dict keys, cache look-ups), here for a pair that
+        # differs by less than / about / more than the comparison tolerance
+        for eps in (2e-7, 8e-7, 3e-6):
+            l3 = lons.copy()
+            l3[r.randrange(H), r.randrange(W)] += eps
+            wrapk = r.choice(["array", "xarray", "list"])
+            mk = {"array": lambda v: v.copy(), "xarray": lambda v: xr.DataArray(v.copy(), dims=("y", "x")), "list": lambda v: v.tolist()}[wrapk]
+            fresh_ans = bool(SwathDefinition(mk(lons), mk(lats)) == SwathDefinition(mk(l3), mk(lats)))
+            a, b = SwathDefinition(mk(lons), mk(lats)), SwathDefinition(mk(l3), mk(lats))
+            order = r.choice(["a", "b", "ab", "eq-a-b"])
+            if order == "eq-a-b":
+                a == b
+            for ch in order.replace("eq-", "").replace("-", ""):
+                hash(a if ch == "a" else b)
+            answers = (bool(a == b), bool(b == a), not bool(a != b))
+            ctx.case("swath.eq_after_hash", (H, W, eps, wrapk, order, float(lons[0, 0])), nontrivial=True)
+            ctx.count(f"swath.eq_after_hash.fresh_{fresh_ans}")
+            if answers != (fresh_ans,) * 3:
+                ctx.fail("BaseDefinition.__eq__", f"two {wrapk} swaths differing by {eps} deg in one longitude: fresh instances compare {fresh_ans}, but after hash() on "
+                         f"{order} the answers of a==b, b==a, not a!=b are {answers}", {"shape": [H, W], "eps": eps, "spelling": wrapk, "hashed": order},
+                         tags={"kind": "eq-depends-on-hash"}, size=H * W)
         # dask: same arrays -> equal and same hash, without computing
         dl, dt = da.from_array(lons, chunks=2), da.from_array(lats, chunks=2)
         d1, d2 = SwathDefinition(dl, dt), SwathDefinition(dl, dt)
